@@ -390,6 +390,16 @@ fn gen_module(id: usize, sh: &Shape) -> String {
         let src = if anim.contains(&i) { "v" } else { "sentinel" };
         s += &format!("        r.checks += 1; if t.f{i} != {src}.f{i} {{ r.bad(id, format!(\"keyframe_from/update: f{i} = {{:?}}, expected {{:?}} ({})\", t.f{i}, {src}.f{i})); }}\n", if anim.contains(&i) { "animated: copied value" } else { "not animated: untouched" });
     }
+    // (2a) ... whatever their values: a source struct holding zeros (the types' defaults), copied at 50% between
+    // keyframes with other values, keys every animated field at 50% with 0
+    {
+        s += &format!("        let zero = {r} {{ {} }};\n", (0..n).map(|i| format!("f{i}: 0 as {}", ty(i))).collect::<Vec<_>>().join(", "));
+        let all = |v: usize| anim.iter().map(|&i| format!(".f{i}({v} as {})", ty(i))).collect::<String>();
+        s += &format!("        let tl = {w}::timeline().duration_seconds(1.0).keyframe({w}::keyframe(0.0){}).keyframe({w}::keyframe_from(&zero, 0.5)).keyframe({w}::keyframe(1.0){}).build();\n        let mut t = sentinel.clone();\n        tl.update(&mut t, 0.5);\n", all(40), all(80));
+        for &i in &anim {
+            s += &format!("        r.checks += 1; if t.f{i} != 0 as {} {{ r.bad(id, format!(\"keyframe_from of a zero-valued source at 50%: f{i} = {{:?}} at t=0.5, expected 0\", t.f{i})); }}\n", ty(i));
+        }
+    }
     // (2b) a setter called after keyframe_from, or twice, overrides the earlier value
     {
         let f = anim[0];
@@ -683,7 +693,7 @@ pub fn run(run: Run) -> ! {
     cov.insert("programs_compiled".into(), json!(compiled));
     cov.insert("evaluations".into(), json!(shapes_a + checks));
     cov.insert("distinct_nontrivial".into(), json!(shapes_a));
-    cov.insert("rule".into(), json!(format!("Layer A (in-process expansion of the real derive source, parsed as a syn::File): ALL struct shapes with {} fields over types {{f32,f64,u8,i16,i32,u32}} x every #[animate] subset x struct visibility {{private,pub,pub(crate)}} (field visibilities rotated) x {{local, #[animate(remote = ...)] proxy (bare identifier or module-qualified path)}}, with doc comments / #[allow] / #[cfg] attributes before or after the #[animate] marker and on the struct (rotated over all shapes, and exhaustively for 1..2 fields), plus (Layer B) 72 structs whose middle or first field is named like an identifier of the generated code or of the builder API (normalized_time, frame_index, values, easing, build, ...), plus 48 WIDE structs (8, 12, 20, 33 fields x markers none/all/even/first/last/one-in-the-middle x local/remote; three of them compiled in quick, all in thorough) and 6 structs with one field of each of the 11 numeric types (f32 f64 u8 i16 i32 u32 i8 u16 i64 u64 usize; two compiled in quick); oracle: animated field set = attributed fields, or all if none is attributed; the keyframe builder has exactly one public setter per animated field with the field's type, keyframe data and t_<field> sub-timelines likewise, keyframe_from / values_from / update / start_with touch exactly the animated fields and are wired name-to-name, Target is the (remote) type, visibility copied, accessors forwarded to the time scale. Layer B: {} shapes compiled with the real derive: setter presence observed at run time (inherent-vs-trait method resolution), keyframe_from copies exactly the animated fields (and a later setter, or a second call of the same setter, overrides), un-animated fields keep sentinels, every animated field interpolates per a linear reference on a 41-point time grid; a keyframe that names Easing::Linear explicitly under a non-linear default easing interpolates linearly (in every other shape each (position, field) is its own keyframe, so keyframes share positions) (delay, two cycles, after the end), a timeline with a negative delay is evaluated at negative times on both sides of its shifted start, a field first keyed at 50% with its own easing has a lead-in eased by the default easing, metadata accessors return the configured values, and a stepped animation of the first animated field (40 holds = 80 keyframes with tied positions, end-of-hold keyframes added before start-of-hold ones) shows each hold's value inside the hold ({} run-time checks)", if thorough { "1..5 (6 types) and 6 (3 types)" } else { "1..4" }, compiled, checks)));
+    cov.insert("rule".into(), json!(format!("Layer A (in-process expansion of the real derive source, parsed as a syn::File): ALL struct shapes with {} fields over types {{f32,f64,u8,i16,i32,u32}} x every #[animate] subset x struct visibility {{private,pub,pub(crate)}} (field visibilities rotated) x {{local, #[animate(remote = ...)] proxy (bare identifier or module-qualified path)}}, with doc comments / #[allow] / #[cfg] attributes before or after the #[animate] marker and on the struct (rotated over all shapes, and exhaustively for 1..2 fields), plus (Layer B) 72 structs whose middle or first field is named like an identifier of the generated code or of the builder API (normalized_time, frame_index, values, easing, build, ...), plus 48 WIDE structs (8, 12, 20, 33 fields x markers none/all/even/first/last/one-in-the-middle x local/remote; three of them compiled in quick, all in thorough) and 6 structs with one field of each of the 11 numeric types (f32 f64 u8 i16 i32 u32 i8 u16 i64 u64 usize; two compiled in quick); oracle: animated field set = attributed fields, or all if none is attributed; the keyframe builder has exactly one public setter per animated field with the field's type, keyframe data and t_<field> sub-timelines likewise, keyframe_from / values_from / update / start_with touch exactly the animated fields and are wired name-to-name, Target is the (remote) type, visibility copied, accessors forwarded to the time scale. Layer B: {} shapes compiled with the real derive: setter presence observed at run time (inherent-vs-trait method resolution), keyframe_from copies exactly the animated fields, also when the source holds zeros (and a later setter, or a second call of the same setter, overrides), un-animated fields keep sentinels, every animated field interpolates per a linear reference on a 41-point time grid; a keyframe that names Easing::Linear explicitly under a non-linear default easing interpolates linearly (in every other shape each (position, field) is its own keyframe, so keyframes share positions) (delay, two cycles, after the end), a timeline with a negative delay is evaluated at negative times on both sides of its shifted start, a field first keyed at 50% with its own easing has a lead-in eased by the default easing, metadata accessors return the configured values, and a stepped animation of the first animated field (40 holds = 80 keyframes with tied positions, end-of-hold keyframes added before start-of-hold ones) shows each hold's value inside the hold ({} run-time checks)", if thorough { "1..5 (6 types) and 6 (3 types)" } else { "1..4" }, compiled, checks)));
     cov.insert("exhaustive".into(), json!(true));
     cov.insert("compiled_runtime_checks".into(), json!(checks));
     cov.insert("samples".into(), json!(acc.samples));
